@@ -37,6 +37,14 @@ var mutants = []mutant{
 	{"C17-null-not-absent", "C17", "object/object.go", "if value, ok := o[key]; !ok || value == nil {", "if value, ok := o[key]; !ok {", "C17.R4"},
 	{"C19-cache-2q", "C19", "jtp/jtp.go", "lru.New[string, bundle](config.Parsed.Network.CacheSize)", "lru.New2Q[string, bundle](config.Parsed.Network.CacheSize)", "C19.R3"},
 	{"C19-signed-parse", "C19", "config/config.go", "r, err := strconv.ParseUint(text[1:3], 16, 0)", "r, err := strconv.ParseInt(text[1:3], 16, 0)", "C19.R2"},
+	// C16
+	{"C16-spare-row-unfixed", "C16", "ansi/ansi.go", "\tif topBufferSize == 0 {\n", "\tif topBufferSize == 0 && prefixHeight == 0 {\n", "C16.R1"},
+	{"C16-odd-row-dropped", "C16", "ansi/ansi.go", "bottomBufferSize := topBufferSize + totalBufferSize%2", "bottomBufferSize := topBufferSize", "C16.R1"},
+	{"C16-not-centred", "C16", "ansi/ansi.go", "topBufferSize := totalBufferSize / 2\n\tbottomBufferSize := topBufferSize + totalBufferSize%2", "topBufferSize := totalBufferSize / 4\n\tbottomBufferSize := totalBufferSize - topBufferSize", "C16.R1"},
+	{"C16-cut-centre-off-by-one", "C16", "ansi/ansi.go", "return strings.Join(strings.Split(centered, \"\\n\")[:height], \"\\n\")", "return strings.Join(strings.Split(centered, \"\\n\")[:height-1], \"\\n\")", "C16.R1"},
+	{"C16-status-line-appended", "C16", "ansi/ansi.go", "return original[:lastIndex] + \"\\n\" + replacement", "return original + \"\\n\" + replacement", "C16.R2"},
+	{"C16-frame-for-other-height", "C16", "ui/ui.go", "output := ansi.CenterVertically(top, center, bottom, uint(s.height))", "output := ansi.CenterVertically(top, center, bottom, uint(s.height-1))", "C16.R3"},
+	{"C16-raw-terminal-write", "C16", "ui/ui.go", "\ts.mode = loading\n\ts.buffer = \"\"\n\ts.output(s.view())", "\ts.mode = loading\n\ts.buffer = \"\"\n\ts.output(\"Loading\\n\")", "C16.R4"},
 	// C01
 	{"C01-scrub-getstring", "C01", "object/object.go", "value = ansi.Scrub(value)", "value = ansi.Squash(value)", "C01.R1"},
 	{"C01-scrub-problem", "C01", "style/style.go", "Red(ansi.Scrub(issue.Error()))", "Red(issue.Error())", "C01.R1"},
